@@ -369,6 +369,7 @@ type FnCtx struct {
 	rangeLen      map[ast.Node]string
 	callOrds      map[*ast.CallExpr]int
 	siteOrds      map[*ast.CallExpr]int
+	deferEnd      map[*ast.CallExpr]token.Pos
 	nocontract    map[string]bool
 	externNoCon   map[string]bool
 	havocAllHeap  bool
